@@ -127,6 +127,11 @@ func checkpath(file string) string {
 		for k, v := range knownPathMap {
 			privfile = replacePathPrefix(privfile, k, v)
 		}
+		if _, ok := knownPathMap[homeDir]; !ok {
+			// the home directory stays hidden even after its mapping was
+			// removed or the table was reset
+			privfile = replacePathPrefix(privfile, homeDir, "~")
+		}
 
 		if IsAnyBitsSet(Lprivacypathregexp) {
 			for _, rpl := range knownPathRegexpMap {
